@@ -156,7 +156,7 @@ def run(ctx):
     h = C.build_harness(impl, *c01.HARNESS[:2], exclude=c01.HARNESS[2])
     drv = C.drv_path() if drv_ok else None
     explore(ctx, h, drv, 60 if ctx.tier == "quick" else 1500, "main")
-    if ctx.proof_broken or ctx.corr_broken:
+    if (ctx.proof_broken or ctx.corr_broken) and not ctx.violations:
         explore(ctx, h, drv, 100, "search")
 
 
